@@ -490,8 +490,11 @@ class Gen(object):
                 else:
                     items.append(['h', '%X' % r.randrange(1 << nw)])
             spec = [r.choice(['l', 'l', 't']), items]
-            if r.random() < 0.2:
+            q = r.random()
+            if q < 0.2:
                 spec = ['l', [spec, spec]]
+            elif q < 0.35:
+                spec = ['l', [['l', [spec, spec]], ['l', [spec, spec]]]]     # three levels deep
             return {'op': 'cont_new', 'spec': spec}
         spec = self.array_spec(fmt, self.shape())
         if r.random() < 0.2:
@@ -756,6 +759,10 @@ class Gen(object):
 
         def code():
             q = r.random()
+            if q < 0.04:
+                # needs Python ints; raw codes in [2**63, 2**64) are NOT generated: the library reads a
+                # raw uint64 as int64 on purpose (wrapped differences of unsigned raws rely on it)
+                return r.choice([1, -1]) * ((1 << r.randint(64, 70)) + r.randint(0, 5))
             if q < 0.6:
                 return r.randint(lo, hi)
             if q < 0.8:
@@ -763,7 +770,11 @@ class Gen(object):
             return lo - r.randint(1, 3)
         if sh and r.random() < 0.7 and o.n_word <= 62:
             n = int(np.prod(sh))
-            spec = ['a', 'int64', list(sh), [[code(), 0] for _ in range(n)]]
+            cs = [code() for _ in range(n)]
+            if any(abs(c) >= (1 << 63) for c in cs):
+                spec = ['l', [['i', c] for c in cs]] if len(sh) == 1 else ['i', cs[0]]
+            else:
+                spec = ['a', 'int64', list(sh), [[c, 0] for c in cs]]
         elif sh and len(sh) == 1 and r.random() < 0.7:
             spec = ['l', [['i', code()] for _ in range(sh[0])]]
         else:
